@@ -127,6 +127,28 @@ async fn run(name: &str) -> Result<(), String> {
             if c04 && w.0 > 1 { return Err(w.1); }
             Ok(())
         }
+        // C10: an urgent control that is pending together with a normal one when the job task wakes up from waiting on its queues runs first
+        // (the job task is parked in recv(); both controls are sent back to back before it can run: current-thread runtime)
+        "urgent_overtakes_normal_when_parked" => {
+            let res = std::thread::spawn(|| {
+                let rt = tokio::runtime::Builder::new_current_thread().enable_all().build().unwrap();
+                rt.block_on(async {
+                    let mut normal_first = 0usize; let trials = 60usize;
+                    for _ in 0..trials {
+                        let (job, task) = start_job(sh("sleep 30"));
+                        for _ in 0..5 { tokio::task::yield_now().await; }     // the task is now parked inside recv()
+                        let ran = Arc::new(AtomicUsize::new(0)); let r2 = ran.clone();
+                        let _n = job.run(move |_| { r2.fetch_add(1, Ordering::SeqCst); });   // normal
+                        let d = job.delete_now();                                              // urgent: Stop, Delete
+                        let _ = timeout(Duration::from_secs(5), d).await;
+                        let _ = timeout(Duration::from_secs(5), task).await;
+                        if ran.load(Ordering::SeqCst) > 0 { normal_first += 1; }
+                    }
+                    (normal_first, trials)
+                })
+            }).join().map_err(|_| "scenario thread panicked".to_string())?;
+            if res.0 == 0 { Ok(()) } else { Err(format!("in {} of {} trials a normal control sent just before delete_now(), both pending when the parked job task woke up, ran before the urgent Stop/Delete", res.0, res.1)) }
+        }
         // C08: after a graceful stop + delete of a GROUPED command, no member of its process group is left running
         "grouped_graceful_stop_leaves_no_member" => {
             let dir = std::env::temp_dir().join(format!("vx-replay-sup-{}", std::process::id()));
